@@ -56,6 +56,16 @@ CAUSES["C05"] = [
 ]
 
 
+CAUSES["C06"] = [
+    (("compile/expr/pow2", "compile/feature/pow_op"), "the ** operator is emitted verbatim (not C++)"),
+    (("compile/feature/fn_list_param", "compile/feature/fn_str_param"), "function parameters are declared int whatever is passed (list / str argument does not compile)"),
+    (("compile/feature/get_mode_var",), "m.get_mode() is inferred as int although the emitted state variable is a String"),
+    (("compile/feature/loop_var_after", "compile/stmt/for_after_value"), "a for-range variable read after its loop is not declared in the enclosing scope"),
+    (("compile/feature/try_except_as", "compile/feature/try_except_named"), "`except SomeError:` is emitted as `catch (SomeError &)` with no such C++ type"),
+    (("compile/feature/undeclared_receiver",), "a method call on a name that was never declared as a device emits undeclared state variables"),
+]
+
+
 def main():
     prop = sys.argv[1]
     path = os.path.join(ROOT, "known_findings.json")
